@@ -170,6 +170,35 @@ func c11GenMsg(r *vf.Rand, p *c11Pool, isJWE bool) c11Msg {
 	return m
 }
 
+// c11JweNormal mirrors the Lean definition `C11.jweNormal`: the struct view of a JSON object
+// (absent string members are "", absent / non-object maps are null).
+func c11JweNormal(w vf.Wire) vf.Wire {
+	normStr := func(o vf.Wire, k string) vf.Wire {
+		if v, ok := o.Get(k); ok && v.Kind == vf.KStr {
+			return vf.Str(v.Str)
+		}
+		return vf.Str("")
+	}
+	normMap := func(o vf.Wire, k string) vf.Wire {
+		if v, ok := o.Get(k); ok && v.Kind == vf.KObj {
+			return v
+		}
+		return vf.Null()
+	}
+	rcpts := vf.Null()
+	if v, ok := w.Get("recipients"); ok && v.Kind == vf.KArr {
+		arr := vf.Wire{Kind: vf.KArr}
+		for _, r := range v.Arr {
+			arr.Arr = append(arr.Arr, vf.Obj(vf.KV{K: "encrypted_key", V: normStr(r, "encrypted_key")}, vf.KV{K: "header", V: normMap(r, "header")}))
+		}
+		rcpts = arr
+	}
+	return vf.Obj(vf.KV{K: "aad", V: normStr(w, "aad")}, vf.KV{K: "ciphertext", V: normStr(w, "ciphertext")},
+		vf.KV{K: "encrypted_key", V: normStr(w, "encrypted_key")}, vf.KV{K: "header", V: normMap(w, "header")},
+		vf.KV{K: "iv", V: normStr(w, "iv")}, vf.KV{K: "protected", V: normStr(w, "protected")}, vf.KV{K: "recipients", V: rcpts},
+		vf.KV{K: "tag", V: normStr(w, "tag")}, vf.KV{K: "unprotected", V: normMap(w, "unprotected")})
+}
+
 func c11WireSet(w vf.Wire, k string, v vf.Wire) vf.Wire {
 	out := vf.Wire{Kind: vf.KObj}
 	for _, kv := range w.Obj {
@@ -591,6 +620,12 @@ func (x *c11Run) execMsgJWE() {
 			x.fail("correspondence", "c11-jwe-marshal", "JSON serialisation differs from the model", string(jsonData), jm.Tag+" "+jm.Cls+" "+jm.Val.Render())
 			return
 		}
+		// oracle law of header_position_roundtrip: the struct decoder reads the marshalled message as jweNormal(kvs)
+		if got := StdOracle("c11.jwe.decodeJSON", []vf.Wire{vf.Bytes(jsonData)}); !c11SameUnordered(got, c11JweNormal(jm.Val)) {
+			x.fail("correspondence", "c11-oracle-law-jwe-normal", "c11.jwe.decodeJSON(json) differs from jweNormal(model JSON)", got.Render(), c11JweNormal(jm.Val).Render())
+			return
+		}
+		x.c.Count("law.jwe-normal")
 		mo = jm
 		if m.Ser == "compact" {
 			if mo, ok = x.call("c11.jwe.compact", oracle, mw); !ok {
